@@ -14,7 +14,7 @@ use std::collections::{BTreeMap, BTreeSet};
 use std::time::Instant;
 
 const DIRS: &[&str] = &["", "", "", "pkg", "pkg/deep", "lib v2", "lib [v2]", "Ünï", "a.b", "pkg/deep/er", "target", "build", "tests", "src", ".cfg", "_gen", "srcx"];
-const BASES: &[&str] = &["alpha", "beta", "my file", "v1.2", "Ünï", "UPPER", "9lives", "x-y", "m_1", "zed", "__init__", "a+b", ".hidden", "_private", "a b c", "très", "target", "src", "x.mamba.bak"];
+const BASES: &[&str] = &["alpha", "beta", "my file", "v1.2", "Ünï", "UPPER", "9lives", "x-y", "m_1", "zed", "ALPHA", "__init__", "a+b", ".hidden", "_private", "a b c", "très", "target", "src", "x.mamba.bak"];
 const ROOTS: &[&str] = &["proj", "proj", "my proj", "prøj", "p.r.o.j", "P1"];
 const ROOTS_GLOB: &[&str] = &["pq [x]", "a*b", "q?z", "br{a,b}"];
 
@@ -514,6 +514,7 @@ pub fn gen_and_run(seed: u64, index: u64, scratch: &str, cfg: &GenCfg, fenced: &
         crash_at: None,
         disk_budget: None,
         cli: rng.below(1000) < cli_permille,
+        input_override: None,
     };
 
     let mut cur_files = files.clone();
@@ -558,7 +559,7 @@ pub fn gen_and_run(seed: u64, index: u64, scratch: &str, cfg: &GenCfg, fenced: &
             let (plan, crash_at, disk_budget) = random_fault(&mut rng, &h.last_counters, h.last_calls, &h.last_log, &h.last_log_seq);
             let mut plan = plan;
             plan.extend(benign_plan(&mut rng, &h.last_counters));
-            push(&mut sc, &mut h, Op::Transpile { hash_seed: rng.next(), readdir_seed: rng.next() | 1, plan, crash_at, disk_budget, cli: false });
+            push(&mut sc, &mut h, Op::Transpile { hash_seed: rng.next(), readdir_seed: rng.next() | 1, plan, crash_at, disk_budget, cli: false, input_override: None });
             let t = transpile(&mut rng, &h, 0);
             push(&mut sc, &mut h, t);
             continue;
@@ -568,7 +569,7 @@ pub fn gen_and_run(seed: u64, index: u64, scratch: &str, cfg: &GenCfg, fenced: &
         let tag = format!("e{edit_no}");
         let mut faulty = None;
         let note;
-        match rng.below(8) {
+        match rng.below(11) {
             0 | 1 => {
                 // exactly one file faulty, then repaired
                 let k = rng.below(cur_files.len().max(1) as u64) as usize;
@@ -674,6 +675,43 @@ pub fn gen_and_run(seed: u64, index: u64, scratch: &str, cfg: &GenCfg, fenced: &
                 let rv = push(&mut sc, &mut h, Op::Project { files: cur_files.clone(), bystanders: cur_by.clone(), outside: vec![], faulty: None, note });
                 last_valid_version = rv;
             }
+            8 => {
+                // the same project and output directory under another configuration: a single
+                // file as input (or the directory when the scenario uses a single file), and/or
+                // the other annotate value — for this one run
+                if cur_files.is_empty() {
+                    continue;
+                }
+                let o = InputOverride {
+                    src_file: if sc.layout.src_file.is_some() { None } else if rng.chance(2, 3) { Some(rng.pick(&cur_files).path.clone()) } else { None },
+                    annotate: if rng.chance(1, 2) { !sc.annotate } else { sc.annotate },
+                };
+                let mut t = transpile(&mut rng, &h, cfg.cli_permille);
+                if let Op::Transpile { input_override, .. } = &mut t {
+                    *input_override = Some(o);
+                }
+                push(&mut sc, &mut h, t);
+                // and back to the scenario's own configuration
+                let t = transpile(&mut rng, &h, cfg.cli_permille);
+                push(&mut sc, &mut h, t);
+                continue;
+            }
+            9 => {
+                // a file replaced by a directory of the same stem: `x.mamba` becomes `x/inner.mamba`
+                if sc.layout.src_file.is_some() || cur_files.is_empty() {
+                    continue;
+                }
+                let k = rng.below(cur_files.len() as u64) as usize;
+                let p = std::path::Path::new(&cur_files[k].path).with_extension("");
+                let newp = format!("{}/inner.mamba", p.to_string_lossy());
+                if cur_files.iter().any(|f| f.path == newp) {
+                    continue;
+                }
+                cur_files[k].path = newp;
+                note = "file_to_dir".to_string();
+                let rv = push(&mut sc, &mut h, Op::Project { files: cur_files.clone(), bystanders: cur_by.clone(), outside: vec![], faulty: None, note });
+                last_valid_version = rv;
+            }
             _ => {
                 // only bystanders change; plain repeated run into the populated directory
                 if rng.chance(1, 2) {
@@ -742,7 +780,7 @@ pub fn enumerate_faults(seed: u64, index: u64, scratch: &str, fenced: &BTreeSet<
     }
     // profile
     let mut prof = pre.clone();
-    prof.history.push(Op::Transpile { hash_seed: 1, readdir_seed: 0, plan: vec![], crash_at: None, disk_budget: None, cli: false });
+    prof.history.push(Op::Transpile { hash_seed: 1, readdir_seed: 0, plan: vec![], crash_at: None, disk_budget: None, cli: false, input_override: None });
     let mut h = HistExec::new(scratch, &prof);
     for (i, op) in prof.history.iter().enumerate() {
         h.apply(i, op);
@@ -758,8 +796,8 @@ pub fn enumerate_faults(seed: u64, index: u64, scratch: &str, fenced: &BTreeSet<
     let mut add = |plan: Vec<PlanItem>, crash_at: Option<u64>, disk: Option<i64>, out: &mut Vec<C13Scenario>| {
         let mut s = pre.clone();
         s.index = base.index + out.len() as u64;
-        s.history.push(Op::Transpile { hash_seed: 1, readdir_seed: 0, plan, crash_at, disk_budget: disk, cli: false });
-        s.history.push(Op::Transpile { hash_seed: 2, readdir_seed: 0, plan: vec![], crash_at: None, disk_budget: None, cli: false });
+        s.history.push(Op::Transpile { hash_seed: 1, readdir_seed: 0, plan, crash_at, disk_budget: disk, cli: false, input_override: None });
+        s.history.push(Op::Transpile { hash_seed: 2, readdir_seed: 0, plan: vec![], crash_at: None, disk_budget: None, cli: false, input_override: None });
         out.push(s);
     };
     let kinds: &[(&str, &[(&str, i64)])] = &[
@@ -864,6 +902,13 @@ pub fn minimise(sc: &C13Scenario, class: &str, scratch: &str, budget: &mut usize
     // simplify steps
     for i in 0..best.history.len() {
         if let Op::Transpile { plan, crash_at, disk_budget, cli, .. } = best.history[i].clone() {
+            {
+                let mut c = best.clone();
+                if let Op::Transpile { input_override, .. } = &mut c.history[i] {
+                    *input_override = None;
+                }
+                attempt(c, &mut best, budget);
+            }
             for k in (0..plan.len()).rev() {
                 let mut c = best.clone();
                 if let Op::Transpile { plan: p, .. } = &mut c.history[i] {
